@@ -74,6 +74,16 @@ def run(model, col, tier):
     ret = [r.value.attr for r in ast.walk(gi) if isinstance(r, ast.Return) and isinstance(r.value, ast.Attribute)]
     col.check(bool(fld) and fld == ret, "R16.1", f"{ASTF}::Module.AddImport/GetImports", f"imports are recorded in and read from `{fld[0] if fld else None}`",
               f"AddImport stores into {fld} but GetImports returns {ret}", ASTF, ai)
+    # a name imported twice is one import: the AST module keeps a set (or the typing pass de-duplicates before loading)
+    ainit = am.own_method("__init__")
+    ival = [n.value for n in ast.walk(ainit) if isinstance(n, ast.Assign) and isinstance(n.targets[0], ast.Attribute) and fld and n.targets[0].attr == fld[0]]
+    is_set = bool(ival) and all(isinstance(v, ast.Set) or (isinstance(v, ast.Call) and dotted(v.func) in ("set", "frozenset")) for v in ival)
+    ctm0 = model.cls(CT, "ComputeTypeVisitor").own_method("v_Module")
+    imp0 = [x for x in ast.walk(ctm0) if isinstance(x, ast.For) and "GetImports" in unparse(x.iter)]
+    dedup = bool(imp0) and any(unparse(imp0[0].iter).startswith(p) for p in ("set(", "sorted(set(", "dict.fromkeys(", "frozenset("))
+    col.check(is_set or dedup, "R16.1", f"{ASTF}::Module imports are a set", "an import statement repeated in a module is loaded once",
+              f"imports are kept in `{unparse(ival[0]) if ival else None}` and the typing pass loads every entry: a module that imports the same name twice registers the imported functions "
+              "twice (every call to them is ambiguous) and trips the duplicate-type assertion", ASTF, ainit)
     lvm = model.cls(LOWER, "LowerToIRVisitor").own_method("v_Module")
     fw = [lp for lp in ast.walk(lvm) if isinstance(lp, ast.For) and "GetImports" in unparse(lp.iter)]
     okfw = bool(fw) and any(isinstance(c, ast.Call) and last_attr(c) == "AddImport" and c.args and unparse(c.args[0]) == unparse(fw[0].target) for c in ast.walk(fw[0]))
@@ -266,6 +276,12 @@ def run(model, col, tier):
             order.append("visit")
     col.check(order == ["imports", "register", "visit"], "R16.5", f"{CT}::v_Module order", "imports, then register all functions, then type the bodies",
               f"order is {order}", CT, ctm)
+    # ... and before anything of the module itself is typed: its struct types and globals may name imported types
+    own = [st for st in ctm.body if isinstance(st, ast.For) and any(g in unparse(st.iter) for g in ("GetTypes", "GetDeclarations", "GetFunctions"))]
+    early = [st for st in own if imp and st.lineno < imp[0].lineno]
+    col.check(bool(imp) and bool(own) and not early, "R16.5", f"{CT}::v_Module registers imports before the module's own items", "the import loop precedes the loops over types, globals and functions",
+              f"`for {unparse(early[0].target) if early else ''} in {unparse(early[0].iter) if early else ''}` runs before the imports are registered: an own struct field or global of an imported type is unknown "
+              "at that point (UnknownTypeException), although the same text in one module compiles", CT, early[0] if early else ctm)
     # ---------------- R16.7 the shared default loader is stateless ---------------------
     linit = lk.own_method("__init__")
     for a, d in zip(linit.args.kwonlyargs, linit.args.kw_defaults):
